@@ -121,7 +121,7 @@ Definition rates_max_period (rs : list rate) : Z := fold_right (fun r m => Z.max
 
 (* every burst refills within the time an idle source is remembered *)
 Definition refill_ok (rs : list rate) : Prop :=
-  forall r, In r rs -> r_burst r * time_per_token (r_period r) (r_average r) <= (rates_max_period rs / second) * 10 * second.
+  forall r, In r rs -> r_burst r * time_per_token (r_period r) (r_average r) <= (rates_max_period rs / second) * Consts.ttlPerSecondOfPeriod * second.
 
 Fixpoint srcs (ops : list op) : list Z :=
   match ops with [] => [] | Req s _ _ :: r => s :: srcs r | _ :: r => srcs r end.
@@ -153,14 +153,14 @@ Proof. unfold Rel, init, iinit; cbn. repeat split; try constructor; try tauto. Q
 Lemma armed_entry_stale c k bs tnow :
   valid_rates (rates c) -> refill_ok (rates c) -> sinv (rates c) bs tnow ->
   will_be_stale {| e_key := k; e_exp := now_sec tnow + ttl_of bs; e_val := bs |}.
-Proof. intros Hv Hr Hs t' Hexp b Hb. cbn [e_exp e_val] in *. unfold ttl_of, now_sec in Hexp.
+Proof. intros Hv Hr Hs t' Hexp b Hb. cbn [e_exp e_val] in *. unfold ttl_of, now_sec, Consts.ttlPerSecondOfPeriod, Consts.ttlExtraSeconds in Hexp.
   rewrite (max_period_conforms _ _ _ Hs) in Hexp.
   pose proof (expired_is_late tnow t' _ Hexp) as Hlate.
   assert (exists r, In r (rates c) /\ conforms r b /\ binv b tnow) as (r & Hin & (Hp & Ht & Hbu) & Hbi).
   { clear - Hs Hb. induction Hs as [|r x rs bs Hx _ IH]; [destruct Hb|]. destruct Hb as [->|Hb].
     - exists r. split; [left; reflexivity|exact Hx].
     - destruct (IH Hb) as (r0 & A & B). exists r0. split; [right; assumption|assumption]. }
-  specialize (Hr r Hin). rewrite Hbu, Ht. destruct Hbi as (_ & _ & _ & _ & _ & Hl). lia. Qed.
+  specialize (Hr r Hin). unfold Consts.ttlPerSecondOfPeriod in Hr. rewrite Hbu, Ht. destruct Hbi as (_ & _ & _ & _ & _ & Hl). lia. Qed.
 
 Lemma consume_eq_settled now n b b' : settled now b = settled now b' -> consume now n b = consume now n b'.
 Proof. unfold consume, settled. intros ->. reflexivity. Qed.
@@ -509,7 +509,7 @@ Proof. induction rs as [|x rs IH]; cbn; intros H; [tauto|]. destruct H as [->|H]
 Theorem five_x_refills rs :
   (forall r, In r rs -> second <= r_period r /\ 1 <= r_average r <= r_period r /\ 0 <= r_burst r <= 5 * r_average r) ->
   refill_ok rs.
-Proof. intros H r Hin. destruct (H r Hin) as (Hp & (Ha1 & Ha2) & (Hb1 & Hb2)).
+Proof. intros H r Hin. unfold Consts.ttlPerSecondOfPeriod. destruct (H r Hin) as (Hp & (Ha1 & Ha2) & (Hb1 & Hb2)).
   pose proof (rates_max_period_ge rs r Hin) as Hm. pose proof second_pos as Hs.
   unfold time_per_token.
   assert (Hq : 1 <= r_period r / r_average r) by (apply Z.div_le_lower_bound; lia).
